@@ -263,8 +263,139 @@ func (u *Unit) applyContract(st *State, instr ssa.Instruction, c *Contract, name
 		}
 		st.assume(implies(guard, g))
 	}
+	if c.Deterministic {
+		for i := range rs {
+			switch rs[i].Sort {
+			case SInt, SBool, SStr:
+				if _, isIface := resTypes[i].Underlying().(*types.Interface); isIface {
+					// error identity is not a function of the arguments, its nil-ness is
+					st.assume(eq(eq(rs[i], intLit(0)), eq(u.detResult(c, i, args), intLit(0))))
+					continue
+				}
+				st.assume(eq(rs[i], u.detResult(c, i, args)))
+			}
+		}
+	}
 	u.afterCall(st, name)
 	return rs
+}
+
+// detResult: the i-th result of a deterministic function as an uninterpreted function of its arguments.
+func (u *Unit) detResult(c *Contract, i int, args []Term) Term {
+	name := fmt.Sprintf("det_%s_%s_%d", sanitize(shortName(c.Pkg)), sanitize(c.Key), i)
+	var sorts []string
+	for _, a := range args {
+		sorts = append(sorts, a.Sort)
+	}
+	// result sort: from the function's signature
+	rs := SStr
+	var rt types.Type = types.Typ[types.String]
+	if fn := u.eng.contractFunc(c); fn != nil {
+		rt = fn.Signature.Results().At(i).Type()
+		rs = u.sortOf(rt)
+	}
+	u.pre.declFun(name, fmt.Sprintf("(declare-fun %s (%s) %s)", name, strings.Join(sorts, " "), rs))
+	u.note("deterministic: results of " + c.Key + " are a function of its (scalar) arguments")
+	r := app(name, rs, args...)
+	r.T = rt
+	u.detAxiom(c)
+	return r
+}
+
+// detAxiom turns the contract of a deterministic scalar function into a universally quantified
+// fact about its result functions (sound because the contract is itself verified, or listed as assumed).
+func (u *Unit) detAxiom(c *Contract) {
+	if u.axiomsUsed == nil {
+		u.axiomsUsed = map[string]bool{}
+	}
+	key := "det:" + c.Pkg + "." + c.Key
+	if u.axiomsUsed[key] {
+		return
+	}
+	u.axiomsUsed[key] = true
+	fn := u.eng.contractFunc(c)
+	if fn == nil {
+		return
+	}
+	if u.contract == c {
+		// the function being verified must not assume its own contract
+		return
+	}
+	ctx := &EvalCtx{u: u, st: u.entry, bound: map[string]bool{}, vars: map[string]Term{}}
+	ctx.pkg = u.eng.pkgByPath(c.Pkg)
+	var decls []string
+	var args []Term
+	for i, p := range fn.Params {
+		u.nfresh++
+		bn := fmt.Sprintf("%s?%d", sanitize(c.Params[i]), u.nfresh)
+		t := mkT(bn, u.sortOf(p.Type()), p.Type())
+		ctx.vars[c.Params[i]] = t
+		ctx.bound[bn] = true
+		decls = append(decls, fmt.Sprintf("(%s %s)", bn, t.Sort))
+		args = append(args, t)
+	}
+	var pats []string
+	for i, rn := range c.Results {
+		r := u.detResult(c, i, args)
+		ctx.vars[rn] = r
+		pats = append(pats, ":pattern ("+r.S+")")
+	}
+	for _, lv := range c.Logical {
+		t := u.eng.resolveType(ctx.pkg, lv.Type)
+		u.nfresh++
+		bn := fmt.Sprintf("%s?%d", lv.Name, u.nfresh)
+		ctx.vars[lv.Name] = mkT(bn, u.sortOf(t), t)
+		ctx.bound[bn] = true
+	}
+	guard := tTrue
+	for _, w := range c.When {
+		guard = and(guard, ctx.eval(w.Expr))
+	}
+	var body []Term
+	for _, e := range c.Ensures {
+		if strings.Contains(e.Text, "fresh(") {
+			continue
+		}
+		// clauses with logical variables get their own inner quantifier
+		var lvs []string
+		for _, lv := range c.Logical {
+			lvs = append(lvs, fmt.Sprintf("(%s %s)", ctx.vars[lv.Name].S, ctx.vars[lv.Name].Sort))
+		}
+		g := ctx.eval(e.Expr)
+		if len(lvs) > 0 && mentionsAny(g.S, lvs) {
+			g = mk(fmt.Sprintf("(forall (%s) %s)", strings.Join(lvs, " "), g.S), SBool)
+		}
+		body = append(body, g)
+	}
+	ax := fmt.Sprintf("(forall (%s) (! %s %s))", strings.Join(decls, " "), implies(guard, and(body...)).S, strings.Join(pats, " "))
+	name := fmt.Sprintf("(det_%s_%s_", sanitize(shortName(c.Pkg)), sanitize(c.Key))
+	u.pre.axiomFor(name, ax)
+	u.usedContracts[c.Pkg+"."+c.Key+" (as spec function)"] = true
+}
+
+// useAxioms adds the declared axioms that mention an uninterpreted spec function.
+func (u *Unit) useAxioms(uf string) {
+	if u.axiomsUsed == nil {
+		u.axiomsUsed = map[string]bool{}
+	}
+	if u.axiomsUsed[uf] {
+		return
+	}
+	u.axiomsUsed[uf] = true
+	for _, ax := range u.eng.contracts.Axioms {
+		if !strings.Contains(ax.Clause.Text, uf+"(") {
+			continue
+		}
+		if u.axiomsUsed["@"+ax.Name] {
+			continue
+		}
+		u.axiomsUsed["@"+ax.Name] = true
+		ctx := &EvalCtx{u: u, st: u.entry, bound: map[string]bool{}, vars: map[string]Term{}}
+		ctx.pkg = u.eng.pkgByPath(ax.Pkg)
+		g := ctx.eval(ax.Clause.Expr)
+		u.pre.axiomFor("(uf_"+uf+" ", g.S)
+		u.usedExternal["axiom "+ax.Name+": "+ax.Clause.Text] = true
+	}
 }
 
 func mentionsAny(s string, decls []string) bool {
@@ -424,40 +555,39 @@ func (u *Unit) execAppend(st *State, instr ssa.Instruction, common *ssa.CallComm
 	inplace := u.define(st, "inplace", le(need, sc))
 	fresh := u.allocRef(st, "grown")
 	newcap := u.fresh(st, "newcap", SInt, nil)
-	st.assume(le(need, newcap))
-	// appending nothing to a nil slice yields nil
+	st.assume(and(le(need, newcap), le(newcap, bigLit("9223372036854775807"))))
 	rb := u.define(st, "rbase", ite(inplace, sb, fresh))
 	ro := u.define(st, "roff", ite(inplace, so, intLit(0)))
 	rc := u.define(st, "rcap", ite(inplace, sc, newcap))
+	r := u.define(st, instr.(ssa.Value).Name(), mkT(fmt.Sprintf("(mkslice %s %s %s %s)", rb.S, ro.S, need.S, rc.S), SSlice, instr.(ssa.Value).Type()))
 	oldArr := sel(h, sb, inner)
-	var newArr Term
+	na := u.fresh(st, "appended", inner, nil)
+	_ = es
+	// prefix: the first len(s) elements of the result are those of s
+	st.assume(mk(fmt.Sprintf("(forall ((i Int)) (! (=> (and (<= 0 i) (< i %s)) (= (select %s (sidx %s i)) (select %s (sidx %s i)))) :pattern ((select %s (sidx %s i))) :pattern ((select %s (sidx %s i)))))", sn.S, na.S, r.S, oldArr.S, s.S, na.S, r.S, oldArr.S, s.S), SBool))
+	// suffix: the appended elements
 	if isOne {
-		cp := u.fresh(st, "copied", inner, nil)
-		st.assume(mk(fmt.Sprintf("(forall ((i Int)) (! (=> (and (<= 0 i) (< i %s)) (= (select %s i) (select %s (+ %s i)))) :pattern ((select %s i))))", sn.S, cp.S, oldArr.S, so.S, cp.S), SBool))
-		newArr = store(ite(inplace, oldArr, cp), add(ro, sn), one)
-		_ = es
+		st.assume(eq(sel(na, app("sidx", SInt, r, sn), es), one))
 	} else {
-		na := u.fresh(st, "appended", inner, nil)
-		// prefix
-		st.assume(mk(fmt.Sprintf("(forall ((i Int)) (! (=> (and (<= 0 i) (< i %s)) (= (select %s (+ %s i)) (select %s (+ %s i)))) :pattern ((select %s (+ %s i)))))", sn.S, na.S, ro.S, oldArr.S, so.S, na.S, ro.S), SBool))
-		// suffix
 		var src string
 		if tIsStr {
 			src = fmt.Sprintf("(sat %s j)", t.S)
 		} else {
-			src = fmt.Sprintf("(select (select %s (sbase %s)) (+ (soff %s) j))", h.S, t.S, t.S)
+			src = fmt.Sprintf("(select (select %s (sbase %s)) (sidx %s j))", h.S, t.S, t.S)
 		}
-		st.assume(mk(fmt.Sprintf("(forall ((j Int)) (! (=> (and (<= 0 j) (< j %s)) (= (select %s (+ %s %s j)) %s)) :pattern ((select %s (+ %s %s j)))))", tn.S, na.S, ro.S, sn.S, src, na.S, ro.S, sn.S), SBool))
-		// in place: everything outside the written range keeps its value
-		st.assume(mk(fmt.Sprintf("(=> %s (forall ((i Int)) (! (=> (or (< i (+ %s %s)) (>= i (+ %s %s))) (= (select %s i) (select %s i))) :pattern ((select %s i)))))", inplace.S, ro.S, sn.S, ro.S, need.S, na.S, oldArr.S, na.S), SBool))
-		newArr = na
+		st.assume(mk(fmt.Sprintf("(forall ((j Int)) (! (=> (and (<= 0 j) (< j %s)) (= (select %s (sidx %s (+ %s j))) %s)) :pattern (%s)))", tn.S, na.S, r.S, sn.S, src, src), SBool))
+		st.assume(mk(fmt.Sprintf("(forall ((k Int)) (! (=> (and (<= %s k) (< k %s)) (= (select %s (sidx %s k)) %s)) :pattern ((select %s (sidx %s k)))))", sn.S, need.S, na.S, r.S,
+			strings.ReplaceAll(src, " j)", " (- k "+sn.S+"))"), na.S, r.S), SBool))
 	}
+	// in place: everything outside the written range keeps its value
+	st.assume(mk(fmt.Sprintf("(=> %s (forall ((k Int)) (! (=> (or (< k (+ %s %s)) (>= k (+ %s %s))) (= (select %s k) (select %s k))) :pattern ((select %s k)))))", inplace.S, ro.S, sn.S, ro.S, need.S, na.S, oldArr.S, na.S), SBool))
 	// frame: an in-place append writes the backing array of s
 	u.frameAppend(st, comp, sb, inplace, tn, instr.Pos())
-	u.heapSet(st, comp, store(h, rb, newArr))
-	r := mkT(fmt.Sprintf("(mkslice %s %s %s %s)", rb.S, ro.S, need.S, rc.S), SSlice, instr.(ssa.Value).Type())
-	// append(nil-or-empty, nothing) keeps nil-ness irrelevant for len; base 0 only if nothing was ever stored
-	return u.define(st, instr.(ssa.Value).Name(), r)
+	u.heapSet(st, comp, store(h, rb, na))
+	return r
+}
+
+func unusedAppendTail() {
 }
 
 func (u *Unit) execAppendStruct(st *State, instr ssa.Instruction, common *ssa.CallCommon, s Term, et types.Type) Term {
@@ -544,9 +674,9 @@ func (u *Unit) execCopy(st *State, instr ssa.Instruction, common *ssa.CallCommon
 	if src.Sort == SStr {
 		srcAt = fmt.Sprintf("(sat %s j)", src.S)
 	} else {
-		srcAt = fmt.Sprintf("(select (select %s (sbase %s)) (+ (soff %s) j))", h.S, src.S, src.S)
+		srcAt = fmt.Sprintf("(select (select %s (sbase %s)) (sidx %s j))", h.S, src.S, src.S)
 	}
-	st.assume(mk(fmt.Sprintf("(forall ((j Int)) (! (=> (and (<= 0 j) (< j %s)) (= (select %s (+ %s j)) %s)) :pattern ((select %s (+ %s j)))))", n.S, na.S, do.S, srcAt, na.S, do.S), SBool))
+	st.assume(mk(fmt.Sprintf("(forall ((j Int)) (! (=> (and (<= 0 j) (< j %s)) (= (select %s (sidx %s j)) %s)) :pattern ((select %s (sidx %s j)))))", n.S, na.S, dst.S, srcAt, na.S, dst.S), SBool))
 	st.assume(mk(fmt.Sprintf("(forall ((i Int)) (! (=> (or (< i %s) (>= i (+ %s %s))) (= (select %s i) (select %s i))) :pattern ((select %s i))))", do.S, do.S, n.S, na.S, oldArr.S, na.S), SBool))
 	u.frameAppend(st, comp, db, lt(intLit(0), n), n, instr.Pos())
 	u.heapSet(st, comp, ite(lt(intLit(0), n), store(h, db, na), h))
